@@ -137,7 +137,7 @@ def run_scenario(ctx, base, sc):
         scopy = w.ArchiveFileCopy.get_or_none(file=f, node=src_node)
         dfile = dst_path.is_file()
         ran = any("AFCR#" in (e.get("task") or "") for e in res["effects"]) or any(e["op"] in ("link", "open-w") and ".placeholder" in e["paths"][-1] for e in res["effects"])
-        left = [p for p in w.tree_listing(pathlib.Path(dst_node.root)) if ".placeholder" in p[0] or ".alpentemp" in p[0] or ".standin-tmp" in p[0]]
+        left = [p for p in w.tree_listing(pathlib.Path(dst_node.root)) if ".placeholder" in p[0] or ".alpentemp" in p[0] or ".Xstand" in p[0]]
         # ---- monitor: the property on this transfer ----
         if req.completed:
             if dcopy is None or dcopy.has_file != "Y":
